@@ -69,6 +69,43 @@ func ssaName(pkg string, fd *ast.FuncDecl) (string, string, string) {
 }
 
 // lockClass names the lock an expression X in X.Lock() denotes
+// mutexFields maps, per package, the name of a sync.Mutex / sync.RWMutex struct field to the struct that declares
+// it (only when that name is unique in the package): `v.mutex.Lock()` on a local v is then resolved by the field
+var mutexFields = map[string]map[string]string{}
+
+func collectMutexFields(pkg string, f *ast.File) {
+	if mutexFields[pkg] == nil {
+		mutexFields[pkg] = map[string]string{}
+	}
+	ast.Inspect(f, func(n ast.Node) bool {
+		ts, ok := n.(*ast.TypeSpec)
+		if !ok {
+			return true
+		}
+		st, ok := ts.Type.(*ast.StructType)
+		if !ok {
+			return true
+		}
+		for _, fld := range st.Fields.List {
+			sel, ok := fld.Type.(*ast.SelectorExpr)
+			if !ok {
+				continue
+			}
+			if id, ok := sel.X.(*ast.Ident); !ok || id.Name != "sync" || (sel.Sel.Name != "Mutex" && sel.Sel.Name != "RWMutex") {
+				continue
+			}
+			for _, nm := range fld.Names {
+				if old, dup := mutexFields[pkg][nm.Name]; dup && old != ts.Name.Name {
+					mutexFields[pkg][nm.Name] = "?ambiguous"
+				} else {
+					mutexFields[pkg][nm.Name] = ts.Name.Name
+				}
+			}
+		}
+		return true
+	})
+}
+
 func lockClass(pkg, recv, recvType string, x ast.Expr, pkgVars map[string]bool) string {
 	short := strings.TrimPrefix(pkg, modPath+"/")
 	switch e := x.(type) {
@@ -83,6 +120,9 @@ func lockClass(pkg, recv, recvType string, x ast.Expr, pkgVars map[string]bool) 
 	case *ast.SelectorExpr:
 		if id, ok := e.X.(*ast.Ident); ok && id.Name == recv && recv != "" {
 			return short + "." + recvType + "." + e.Sel.Name
+		}
+		if t, ok := mutexFields[pkg][e.Sel.Name]; ok && t != "?ambiguous" {
+			return short + "." + t + "." + e.Sel.Name
 		}
 		return short + ".?" + exprString(e)
 	}
@@ -134,6 +174,28 @@ func (w *lockWalker) walk(n ast.Node, held []string) []string {
 		return held
 	}
 	switch x := n.(type) {
+	case *ast.IfStmt:
+		// a branch that ends in return/panic/continue/break does not change what is held after the statement
+		held = w.walk(x.Init, held)
+		held = w.walk(x.Cond, held)
+		after := w.walk(x.Body, append([]string{}, held...))
+		if blockTerminates(x.Body) {
+			after = held
+		}
+		if x.Else != nil {
+			e := w.walk(x.Else, append([]string{}, held...))
+			if eb, ok := x.Else.(*ast.BlockStmt); ok && blockTerminates(eb) {
+				e = nil
+				if blockTerminates(x.Body) {
+					return held
+				}
+				return after
+			}
+			if blockTerminates(x.Body) {
+				return e
+			}
+		}
+		return after
 	case *ast.GoStmt:
 		w.src.goSite[w.pos(x.Call)] = true
 		// the spawned body runs on its own: nothing of the spawner is held in it
@@ -198,6 +260,26 @@ func (w *lockWalker) walk(n ast.Node, held []string) []string {
 		held = w.walk(c, held)
 	}
 	return held
+}
+
+// blockTerminates reports whether control cannot fall out of the end of the block
+func blockTerminates(b *ast.BlockStmt) bool {
+	if b == nil || len(b.List) == 0 {
+		return false
+	}
+	switch x := b.List[len(b.List)-1].(type) {
+	case *ast.ReturnStmt:
+		return true
+	case *ast.BranchStmt:
+		return x.Tok == token.CONTINUE || x.Tok == token.BREAK || x.Tok == token.GOTO
+	case *ast.ExprStmt:
+		if c, ok := x.X.(*ast.CallExpr); ok {
+			if id, ok := c.Fun.(*ast.Ident); ok && id.Name == "panic" {
+				return true
+			}
+		}
+	}
+	return false
 }
 
 func sourceHash(root string) (string, []string) {
@@ -291,6 +373,18 @@ func genLockOrder() (string, error) {
 	src := &lockSrc{held: map[string][]string{}, lockClass: map[string]string{}, goSite: map[string]bool{}, direct: map[string]bool{}}
 	var unresolved []string
 	for _, p := range files {
+		f, err := parser.ParseFile(token.NewFileSet(), p, nil, 0)
+		if err != nil {
+			return "", err
+		}
+		rel, _ := filepath.Rel(root, filepath.Dir(p))
+		pkg := modPath
+		if rel != "." {
+			pkg += "/" + filepath.ToSlash(rel)
+		}
+		collectMutexFields(pkg, f)
+	}
+	for _, p := range files {
 		f, err := parser.ParseFile(fset, p, nil, 0)
 		if err != nil {
 			return "", err
@@ -317,13 +411,14 @@ func genLockOrder() (string, error) {
 			}
 			name, recv, rt := ssaName(pkg, fd)
 			w := &lockWalker{fset: fset, pkg: pkg, recv: recv, recvTyp: rt, pkgVars: pkgVars, src: src}
-			before := len(src.direct)
+			known := map[string]bool{}
+			for c := range src.direct {
+				known[c] = true
+			}
 			w.walk(fd.Body, nil)
-			if len(src.direct) != before {
-				for c := range src.direct {
-					if strings.Contains(c, ".?") {
-						unresolved = append(unresolved, name+": "+c)
-					}
+			for c := range src.direct {
+				if !known[c] && strings.Contains(c, ".?") {
+					unresolved = append(unresolved, shortFn(name)+": "+c)
 				}
 			}
 		}
